@@ -208,8 +208,33 @@ def fermat_hook(m, tb, e, mod, t):
         m.p.assume(QR(a) == ((t * t) % P == a))
 
 
+XORB = z3.Function("xor_bytes", BSort, BSort, BSort)
+
+
+def i_xor_bytes(m, args, kwargs):
+    """byte-wise xor of two equally long byte strings as an uninterpreted (commutative by
+    argument order) function of its operands; concrete operands are computed"""
+    a, b = args[0], args[1]
+    if isinstance(a, bytes) and isinstance(b, bytes):
+        return bytes(x ^ y for x, y in zip(a, b))
+    if not (is_bytes(a) and is_bytes(b)) or not getattr(m, "nl_uf", False):
+        return NotImplemented
+    la, lb = m.length(a), m.length(b)
+    if not (isinstance(la, int) and isinstance(lb, int) and la == lb):
+        return NotImplemented
+    ta, tb = sorted([bytes_to_B(a), bytes_to_B(b)], key=lambda t: t.sexpr())
+    t = XORB(ta, tb)
+    from .engine import id_key
+    m.p.blen[id_key(t)] = la
+    return SBytes([OB(t, la)]) if la else b""
+
+
 def install(reg):
     pecc = _pecc()
+    from buidl import helper as _helper
+    from verif.specs import schnorr as _schnorr
+    reg.intrinsics[_helper.xor_bytes] = i_xor_bytes
+    reg.intrinsics[_schnorr.xor32] = i_xor_bytes
     reg.intrinsics[pecc.S256Point.__rmul__] = i_rmul
     reg.intrinsics[pecc.S256Point.__add__] = i_add
     reg.intrinsics[pecc.Point.__rmul__] = i_rmul
